@@ -16,8 +16,8 @@ def add(pid, key, what, *probes):
     L.append((pid, pid + ":" + key, what, list(probes)))
 
 
-def g(sql, entry="parse"):
-    return (G, dict(sql=sql, entry=entry))
+def g(sql, entry="parse", **options):
+    return (G, dict(sql=sql, entry=entry, **({"options": options} if options else {})))
 
 
 def rt(sql, entry="parse"):
@@ -81,6 +81,28 @@ add("C08", "float-infinity", "a real literal beyond the binary64 range parses to
     g("select 1.5e400"), g("select a from t limit 1.0e999"))
 add("C08", "empty-block-none", "an accepted statement with nothing in it (BEGIN END) returns None although null=None was not requested",
     g("begin end"))
+# ---- C11
+add("C11", "function-named-null", "a zero-argument call of a function named null is written {'null': {}} by simple_op, exactly like the NULL keyword, and is not a recorded slot: null=X leaves it",
+    g('select "null"(), null', null=0))
+# ---- C12
+add("C12", "frame-bound-simplified-early", "window frame bounds are simplified while the grammar is still matching and again at the end: under normal_op the args list of a sole-argument call inside a bound is unwrapped, and the negation is a hand-written {'neg': ..}",
+    g("select sum(a) over (order by b range f(x) preceding) from t", calls="normal_op"))
+add("C12", "hand-written-operator-dicts", "some parse actions return a literal {op: args} dict instead of a Call: the node is not written in normal form and fmap does not rename it (2x, MERGE ... THEN DELETE)",
+    g("select 2x from t", calls="normal_op"), g("merge into t using u on t.a = u.a when matched then delete", calls="normal_op"))
+add("C12", "keyword-argument-named-like-operation", "simple_op writes kwargs[op] = args: a keyword argument whose name is the operation's name is overwritten (normal_op keeps it)",
+    g("select f(x, f => 1) from t"))
+# ---- C19
+add("C19", "charset-type-reshapes-options", "a column whose type carries CHARACTER SET is rebuilt by to_flat_column_type: nested options of the same column come out in another shape than on a column without it",
+    g("create table t (a varchar(9) character set utf8 generated always as identity, b varchar(9) generated always as identity)"))
+add("C19", "multi-row-values-lose-encoding", "get_literal keeps only the text of a literal: in a multi-row VALUES list the N / _charset prefix of a string is dropped (the one-row form keeps it)",
+    g("insert into t (a, b) values (_utf8'x', 1), (N'y', 2)"))
+add("C19", "column-name-zipped-by-character", "INSERT with ONE column and rows of several values: zip(columns, row) iterates the characters of the column name",
+    g("insert into t (ab) values (1, 2), (3, 4)"))
+add("C19", "column-named-key-or-index", "a column named key / index with an array(..) / map(..) type is read as an index constraint",
+    g("create table t (a int, key map(int, varchar(3)))"))
+# ---- C20
+add("C20", "frame-unit-not-recorded", "ROWS and RANGE are both suppressed by the grammar and format always prints ROWS: a RANGE frame comes back as a ROWS frame (and a fractional RANGE offset does not parse back)",
+    rt("select sum(x) over (order by y range between 1.5 preceding and 2.5 following) from t"))
 # ---- C13
 add("C13", "empty-compound-statement", "an empty compound statement (BEGIN END, LOOP END LOOP) scrubs to nothing and vanishes from the list of statements",
     g("select 1; begin end; select 2"), g("begin end; select 2"))
@@ -149,7 +171,10 @@ def hunts():
 def reproduce(kind, a):
     fn = getattr(impl.M, a.get("entry", "parse"))
     if kind in (G, R, X):
-        st, got = impl.outcome(fn, a["sql"])
+        opts = dict(a.get("options", {}))
+        if opts.get("calls") == "normal_op":
+            opts["calls"] = impl.M.normal_op
+        st, got = impl.outcome(fn, a["sql"], **opts)
         if kind == G:
             if st != "ok":
                 return False, None
